@@ -48,6 +48,23 @@ fn base_scenario(kind: &str, seed: u64, run: u64) -> (Scenario, gen::Knobs) {
 }
 
 pub fn generate(kind: &str, seed: u64, run: u64, thorough: bool) -> Scenario {
+    if kind == "process" {
+        // run 0: hash scenarios, run 1: history scenarios; `run` of the scenario = how many
+        return Scenario {
+            property: "C12".into(),
+            kind: "process".into(),
+            seed,
+            run: match (run, thorough) {
+                (0, false) => 300,
+                (0, true) => 3000,
+                (_, false) => 80,
+                (_, true) => 600,
+            },
+            strings: vec![if run == 0 { "hash".into() } else { "history".into() }],
+            origin: "process".into(),
+            ..Default::default()
+        };
+    }
     let (mut sc, _knobs) = base_scenario(kind, seed, run);
     let mut hr = Rng::stream(seed, run, "HASH");
     let mut sr = Rng::stream(seed, run, "SWITCHES");
@@ -90,6 +107,7 @@ pub fn generate(kind: &str, seed: u64, run: u64, thorough: bool) -> Scenario {
                 .collect();
             sc.sched_seed = tr.next_u64();
             sc.shared_doc = tr.chance(1, 3);
+            sc.engine_seams = tr.chance(1, 2);
             if tr.chance(1, 3) {
                 sc.pct = Some((1 + tr.below(3), 50 + tr.below(200)));
             }
@@ -516,7 +534,7 @@ fn exec_threads(sc: &Scenario) -> Outcome {
             }
         }));
     }
-    sched.run(bodies, 64 << 20);
+    sched.run(bodies, 64 << 20, sc.engine_seams);
     let trace = sched.trace();
     let results = results.lock().unwrap().clone();
     for (t, i, r) in &results {
@@ -555,6 +573,9 @@ fn exec_threads(sc: &Scenario) -> Outcome {
     if sc.shared_doc {
         stats.inc("shared_document_runs");
     }
+    if sc.engine_seams {
+        stats.inc("runs_with_scheduling_points_inside_the_engine");
+    }
     if sc.pct.is_some() {
         stats.inc("pct_strategy_runs");
     } else {
@@ -581,8 +602,82 @@ fn exec_threads(sc: &Scenario) -> Outcome {
     o
 }
 
+/// Starts `tausim digest` in a fresh child process.
+fn spawn_digests(sub: &str, seed: u64, n: u64, extra: &[&str]) -> Option<std::process::Child> {
+    let exe = std::env::current_exe().ok()?;
+    let mut args: Vec<String> = vec!["digest".into(), "C12".into(), sub.into(), "0".into(), n.to_string(), "--seed".into(), seed.to_string()];
+    args.extend(extra.iter().map(|s| s.to_string()));
+    std::process::Command::new(exe)
+        .args(&args)
+        .stdout(std::process::Stdio::piped())
+        .stderr(std::process::Stdio::null())
+        .spawn()
+        .ok()
+}
+
+/// Collects run -> digest from a child started by `spawn_digests`.
+fn collect_digests(child: Option<std::process::Child>) -> Option<std::collections::BTreeMap<u64, u64>> {
+    let out = child?.wait_with_output().ok()?;
+    let mut m = std::collections::BTreeMap::new();
+    for l in String::from_utf8_lossy(&out.stdout).lines() {
+        let f: Vec<&str> = l.split_whitespace().collect();
+        if f.len() >= 4 {
+            if let (Ok(run), Ok(d)) = (f[2].parse::<u64>(), u64::from_str_radix(f[3], 16)) {
+                m.insert(run, d);
+            }
+        }
+    }
+    Some(m)
+}
+
+/// S6: the same scenarios executed in fresh processes in ascending order, in descending order and
+/// by four parallel workers must give the same history digests: a verdict or a printed tree that
+/// depends on what the process did before (or does concurrently) is a process-wide state leak.
+fn exec_process(sc: &Scenario) -> Outcome {
+    let mut stats = Stats::default();
+    let mut d = Digest::new();
+    let mut vs = vec![];
+    let sub = sc.strings.first().map(|s| s.as_str()).unwrap_or("hash");
+    let n = sc.run.max(1);
+    let (c1, c2, c3) = (
+        spawn_digests(sub, sc.seed, n, &["--workers", "1"]),
+        spawn_digests(sub, sc.seed, n, &["--reverse"]),
+        spawn_digests(sub, sc.seed, n, &["--workers", "4"]),
+    );
+    let (asc, desc, par) = (collect_digests(c1), collect_digests(c2), collect_digests(c3));
+    let (asc, desc, par) = match (asc, desc, par) {
+        (Some(a), Some(b), Some(c)) if a.len() as u64 == n && b.len() as u64 == n && c.len() as u64 == n => (a, b, c),
+        _ => {
+            stats.inc("process_check_children_failed");
+            return Outcome::clean(&d, stats);
+        }
+    };
+    stats.add("process_digests_compared", 2 * n);
+    for (run, da) in &asc {
+        d.u64(*da);
+        for (label, other) in [("descending order", &desc), ("4 parallel workers", &par)] {
+            if other.get(run) != Some(da) {
+                push_violation(
+                    &mut vs,
+                    Violation::new(
+                        "result_depends_on_process_history",
+                        sub.to_owned(),
+                        format!(
+                            "C12 {} scenario run {} (seed {}): history digest {:016x} when a fresh process executes runs 0..{} in ascending order, {:016x?} with {} - the engine keeps process-wide state",
+                            sub, run, sc.seed, da, n, other.get(run), label
+                        ),
+                    ),
+                );
+            }
+        }
+    }
+    stats.seen("nontrivial", Digest::new().str(sub).u64(sc.seed).finish());
+    Outcome::of(&d, stats, vs)
+}
+
 pub fn execute(sc: &Scenario) -> Outcome {
     match sc.kind.as_str() {
+        "process" => exec_process(sc),
         "hash" => exec_hash(sc),
         "history" => exec_history(sc),
         "threads" => exec_threads(sc),
